@@ -22,6 +22,7 @@ package seccomp
 
 import (
 	"fmt"
+	"runtime"
 	"syscall"
 	"unsafe"
 
@@ -63,6 +64,12 @@ func LoadFilter(filter Filter) error {
 		Len:    uint16(len(sockFilter)),
 		Filter: &sockFilter[0],
 	}
+
+	// The no_new_privs bit is an attribute of the thread. Stay on the thread
+	// that sets it until the filter is installed, otherwise an unprivileged
+	// process is not allowed to install the filter.
+	runtime.LockOSThread()
+	defer runtime.UnlockOSThread()
 
 	if filter.NoNewPrivs {
 		if err = SetNoNewPrivs(); err != nil {
